@@ -86,6 +86,8 @@ NAME_FIELDS = ["short_day_names", "long_day_names", "short_month_names", "long_m
                "eranames:anno_hegirae", "era:anno_mundi", "era:anno_martyrum", "eranames:anno_mundi", "eranames:anno_martyrum",
                "era:anno_persico", "era:bahai", "eranames:before_common"]  # fmt: skip
 
+_TRANSITIONS = {}  # zone id -> transition instants (ns since epoch) 1800..2100, read through the public API in a fork
+_SWEEPS = []  # systematic single-pre-emption cases (built in prepare)
 _POOL = None  # {"cal": {...}, ...} structured pool of ops
 _TABLE = None  # key(op) -> cold answer
 _ALL_CULTURES = None
@@ -320,6 +322,32 @@ def do_op(op, env):
         if op[1] == "aliases":
             return list(src.aliases.get(op[2], [])), None
         return src.canonical_id_map.get(op[2]), None
+    if k in ("fmtcust", "namescust"):
+        # a caller-customised (mutable) culture: same name as the stock one, different calendar
+        import pyoda_time._compatibility as compat  # noqa: F401
+        from pyoda_time._compatibility._culture_info import CultureInfo
+
+        cname, calkind = (op[3], op[4]) if k == "fmtcust" else (op[1], op[2])
+        ci = CultureInfo(cname)
+        modname, clsname = {"gregorian": ("_gregorian_calendar", "GregorianCalendar"), "hijri": ("_hijri_calendar", "HijriCalendar"),
+                            "persian": ("_persian_calendar", "PersianCalendar"), "umalqura": ("_um_al_qura_calendar", "UmAlQuraCalendar"),
+                            "thai": ("_thai_buddhist_calendar", "ThaiBuddhistCalendar")}[calkind]  # fmt: skip
+        import importlib
+
+        ci.date_time_format.calendar = getattr(importlib.import_module("pyoda_time._compatibility." + modname), clsname)()
+        if k == "fmtcust":
+            return _pattern_cls(op[1]).create(op[2], ci).format(_value(op[1], op[5])), None
+        from pyoda_time.calendars import Era
+        from pyoda_time.globalization._pyoda_format_info import _PyodaFormatInfo
+
+        fi = _PyodaFormatInfo.get_instance(ci)
+        w = op[3]
+        if w.startswith("era:"):
+            return fi.get_era_primary_name(getattr(Era, w[4:])), None
+        if w.startswith("eranames:"):
+            return list(fi.get_era_names(getattr(Era, w[9:]))), None
+        v = getattr(fi, w)
+        return list(v) if isinstance(v, (list, tuple)) else v, None
     if k == "iso":
         pat = getattr(_pattern_cls(op[1]), op[2])
         s = pat.format(_value(op[1], op[3]))
@@ -465,6 +493,24 @@ def build_pool(master_seed, scale=1.0):
                             ops.append(["local", nm, yy, mm, dd, rng.randrange(NS_DAY)])
             groups.append(ops)
         pool["zone"][zid] = groups
+    # instants at and around real transitions (and their cache aliases 512 periods away): the boundary values of the
+    # interval lookup
+    for zid in TZ_IDS:
+        trs = _TRANSITIONS.get(zid) or []
+        names = [zid] + TZ_ALIASES.get(zid, [])
+        for _ in range(max(2, int(4 * scale)) if trs else 0):
+            t = rng.choice(trs)
+            day0 = (t // NS_DAY) * NS_DAY
+            offs = [0, -1, 1, rng.randrange(1, 3600 * 10**9), -rng.randrange(1, 3600 * 10**9), day0 + NS_DAY - 1 - t, day0 - t,
+                    rng.randrange(0, NS_DAY) + day0 - t]  # fmt: skip
+            ops = []
+            for kk in rng.sample([0, 0, 1, -1, 2, -2, 3, -3], 4):
+                base = t + kk * 512 * 32 * NS_DAY
+                for o in rng.sample(offs, 4):
+                    ns = base + o
+                    if -4371222 * NS_DAY <= ns <= 2932896 * NS_DAY:
+                        ops.append([rng.choice(["zi", "zi", "zoff", "inzone"]), rng.choice(names), ns])
+            pool["zone"][zid].append(ops)
     for zid in TZ_IDS:
         for nm in [zid] + TZ_ALIASES.get(zid, []):
             pool["prov"].append(["tz", nm])
@@ -530,6 +576,16 @@ def build_pool(master_seed, scale=1.0):
         y = rng.randrange(max(lo, 1300), min(hi, 1500) + 1) if cal == "Um Al Qura" else rng.randrange(max(lo, 2), min(hi, 9000))
         cn = rng.choice(CULTURES)
         pool["text"].setdefault(cn, []).append(["fmtcal", rng.choice(["uuuu-MM-dd", "d MMMM yyyy", "yyyy MM dd gg"]), cn, cal, [y, rng.randrange(1, 13), rng.randrange(1, 29)]])
+    # customised cultures (same name as a stock culture, different calendar) next to the stock ones
+    for cn, kinds in (("th-TH", ["gregorian", "thai"]), ("fa-IR", ["gregorian", "persian"]), ("ar-SA", ["gregorian", "umalqura", "hijri"]),
+                      ("en-US", ["gregorian"]), ("he-IL", ["gregorian"])):  # fmt: skip
+        for kind in kinds:
+            for text in ("d MMMM yyyy gg", "yyyy MM dd gg", "D"):
+                pool["text"].setdefault(cn, []).append(["fmtcust", "localdate", text, cn, kind, rand_value("localdate")])
+                pool["text"].setdefault(cn, []).append(["fmt", "localdate", text, cn, "cached", rand_value("localdate")])
+            for w in ("era:common", "eranames:common", "era:anno_hegirae", "era:anno_persico", "long_month_names", "short_day_names"):
+                pool["names"].append(["namescust", cn, kind, w])
+                pool["names"].append(["names", cn, "cached", w])
     for zid in TZ_IDS:
         pool["prov"].append(["winmap", "t2w", zid])
         pool["prov"].append(["winmap", "canon", rng.choice([zid] + TZ_ALIASES.get(zid, []))])
@@ -559,6 +615,141 @@ def pool_ops(pool):
         yield from ops
     yield from pool["iso"]
     yield from pool["names"]
+
+
+def build_sweep_pairs(pool, master_seed, n_pairs):
+    """Pairs (warm-up, A, B) for the systematic part: thread 0 runs warm-up then A and is pre-empted once, at every
+    scheduling point of A in turn, by thread 1 running B to completion; afterwards thread 0 repeats A and B to observe
+    damage that was cached. Pairs are chosen so that A and B meet in one piece of shared state."""
+    rng = random.Random(master_seed ^ 0x53EE9)
+    pairs = []
+
+    def add(kind, warm, a, b, prewarm):
+        pairs.append({"kind": kind, "warm": warm, "a": a, "b": b, "prewarm": prewarm})
+
+    cals = list(pool["cal"])
+    per = max(1, n_pairs // 10)
+    for _ in range(per * 2):
+        cal = rng.choice(cals)
+        g = rng.choice(pool["cal"][cal])
+        ops = [o for o in g if o[0] in ("date", "ylen", "conv")]
+        if len(ops) < 2:
+            continue
+        a = rng.choice(ops)
+        bs = [o for o in ops if o[2] != a[2] and (o[2] - a[2]) % 1024 == 0]
+        if not bs:
+            continue
+        b = rng.choice(bs)
+        warm = rng.choice([[], [b], [a], []])
+        add("year-cache alias", warm, a, b, rng.choice([["cal"], ["cal"], []]))
+    lo, hi = CAL_RANGE["Hebrew Civil"]
+    for _ in range(per * 2):
+        # the Hebrew calculator looks ahead at next year's slot of the global cache shared by both month numberings
+        y = rng.randrange(lo + 1, hi - 1)
+        ks = [k for k in (-3, -2, -1, 1, 2, 3) if lo <= y + 1 + 1024 * k <= hi]
+        if not ks:
+            continue
+        z = y + 1 + 1024 * rng.choice(ks)
+        ca, cb = rng.choice(["Hebrew Civil", "Hebrew Scriptural"]), rng.choice(["Hebrew Civil", "Hebrew Scriptural"])
+        m = rng.randrange(1, 13)
+        a = rng.choice([["date", ca, y, m, rng.randrange(1, 29)], ["ylen", ca, y], ["mlen", ca, y, rng.choice([2, 3, 8, 9])]])
+        b = rng.choice([["date", cb, z, m, rng.randrange(1, 29)], ["ylen", cb, z]])
+        warm = rng.choice([[["ylen", ca, y + 1]], [["ylen", ca, y + 1]], [], [["ylen", cb, z]]])
+        add("hebrew look-ahead", warm, a, b, ["cal"])
+    zids = list(pool["zone"])
+    for _ in range(per * 3):
+        zid = rng.choice(zids)
+        g = rng.choice(pool["zone"][zid])
+        ops = [o for o in g if o[0] in ("zi", "zoff", "inzone")]
+        if len(ops) < 2:
+            continue
+        a = rng.choice(ops)
+        pa = (a[2] // NS_DAY) >> 5
+        bs = [o for o in ops if ((o[2] // NS_DAY) >> 5) != pa and (((o[2] // NS_DAY) >> 5) - pa) % 512 == 0]
+        if not bs:
+            continue
+        b = rng.choice(bs)
+        b = [b[0], a[1], b[2]] if rng.random() < 0.7 else b  # same zone object unless an alias is wanted
+        add("zone-cache alias", rng.choice([[], [b], []]), a, b, ["prov", "zones"])
+    first = [o for o in pool["prov"] if o[0] in ("tz", "tznone", "fixed", "fixedcur", "utc")] + [o for o in pool["calid"]]
+    for _ in range(per * 2):
+        a = rng.choice(first)
+        same = [o for o in first if o[0] == a[0] and o[1:2] == a[1:2]]
+        b = rng.choice(same) if rng.random() < 0.6 else rng.choice(first)
+        add("first touch", [], a, b, ["prov"] if rng.random() < 0.9 else [])
+    texts = [o for ops in pool["text"].values() for o in ops if o[0] in ("fmt", "fmtw", "fmtcust", "parse")]
+    names = pool["names"]
+    for _ in range(per * 2):
+        a = rng.choice(texts + names)
+        cand = texts if a[0] != "names" and a[0] != "namescust" else names
+        cn = a[3] if a[0] in ("fmt", "parse", "fmtw", "fmtcust") else a[1]
+        same = [o for o in cand if (o[3] if o[0] in ("fmt", "parse", "fmtw", "fmtcust") else o[1]) == cn]
+        b = rng.choice(same) if rng.random() < 0.5 and same else rng.choice(cand)
+        add("format info", rng.choice([[], [], [b]]), a, b, rng.choice([[], ["cultures"]]))
+    for _ in range(per):
+        a = rng.choice(pool["iso"])
+        same = [o for o in pool["iso"] if o[1] == a[1]]
+        add("iso singleton", [], a, rng.choice(same), [])
+    rng.shuffle(pairs)
+    return pairs[:n_pairs]
+
+
+def _sweep_spec(pair, i, seed):
+    nwarm = len(pair["warm"])
+    return {
+        "prop": PROP, "seed": seed, "mode": "sweep", "families": [pair["kind"]],
+        "threads": [pair["warm"] + [pair["a"], pair["a"], pair["b"]], [pair["b"]]],
+        "strategy": {"kind": "scripted", "switches": [[-1, 0, 0, 0], [0, nwarm, i, 1]]},
+        "prewarm": pair["prewarm"],
+    }  # fmt: skip
+
+
+def _sweep_len(pair):
+    """Dry run (serial) of thread 0 alone: the scheduling points inside A, and which of them lie in inventory files."""
+    spec = _sweep_spec(pair, 0, 1)
+    spec["threads"] = [spec["threads"][0][: len(pair["warm"]) + 1]]
+    spec["strategy"] = {"kind": "serial"}
+    spec["mode"] = "hist"
+    spec["want_op_events"] = True
+    spec["record_trace"] = True
+    r = execute(spec)
+    evs = {oi: ev for ti, oi, ev in r.get("op_events", []) if ti == 0}
+    na = len(pair["warm"])
+    n = evs.get(na, 0)
+    before = sum(evs.get(i, 0) for i in range(na))
+    tr = (r.get("trace") or [])[before : before + n]
+    hot = [i + 1 for i, (_, rel, _ln) in enumerate(tr) if rel in HOT_FILES or rel == "<lock>"]
+    return {"n": n, "hot": hot}
+
+
+def build_sweeps(pool, master_seed, n_pairs, max_hot, max_cold, workers):
+    pairs = build_sweep_pairs(pool, master_seed, n_pairs)
+    rng = random.Random(master_seed ^ 0xD1CE)
+    cases = []
+    exhaustive_hot = 0
+    lens = []
+    hots = []
+    dry = bootstrap.parallel_map(_sweep_len, pairs, workers, 120)
+    for pi, pair in enumerate(pairs):
+        r = dry[pi]
+        if not isinstance(r, dict) or "n" not in r or r["n"] <= 0:
+            continue
+        n, hot = r["n"], r["hot"]
+        lens.append(n)
+        hots.append(len(hot))
+        if len(hot) <= max_hot:
+            pos = set(hot)
+            exhaustive_hot += 1
+        else:
+            step = len(hot) / max_hot
+            pos = {hot[int(j * step)] for j in range(max_hot)}
+        cold = [i for i in range(1, n + 1) if i not in pos]
+        pos |= set(rng.sample(cold, min(len(cold), max_cold)))
+        cases += [(pi, i) for i in sorted(pos)]
+    return pairs, cases, {"pairs": len(pairs), "cases": len(cases), "pairs_with_every_inventory_file_position": exhaustive_hot,
+                          "max_inventory_positions_per_pair": max_hot, "other_positions_sampled_per_pair": max_cold,
+                          "median_points_in_A": sorted(lens)[len(lens) // 2] if lens else 0,
+                          "median_inventory_points_in_A": sorted(hots)[len(hots) // 2] if hots else 0}  # fmt: skip
 
 
 def _cold_worker(ops, out_fd):
@@ -620,6 +811,28 @@ def cold_table(ops, workers):
     return table
 
 
+def _zone_transitions(_):
+    import pyoda_time as P
+
+    out = {}
+    lo, hi = -5364662400 * 10**9, 4102444800 * 10**9  # 1800 .. 2100
+    for zid in TZ_IDS:
+        z = P.DateTimeZoneProviders.tzdb[zid]
+        inst = _inst(lo)
+        ts = []
+        for _ in range(2000):
+            zi = z.get_zone_interval(inst)
+            if not zi.has_end:
+                break
+            e = _ns(zi.end)
+            if e > hi:
+                break
+            ts.append(e)
+            inst = zi.end
+        out[zid] = ts
+    return out
+
+
 def _all_culture_names(_):
     from pyoda_time._compatibility._culture_info import CultureInfo
     from pyoda_time._compatibility._culture_types import CultureTypes
@@ -628,13 +841,19 @@ def _all_culture_names(_):
 
 
 def prepare(tier, master_seed, workers):
-    global _POOL, _TABLE, _ALL_CULTURES
+    global _POOL, _TABLE, _ALL_CULTURES, _TRANSITIONS, _SWEEPS
     t0 = time.monotonic()
     r = bootstrap.run_in_fork(_all_culture_names, None, 120)
     _ALL_CULTURES = r if isinstance(r, list) else []
+    tr = bootstrap.run_in_fork(_zone_transitions, None, 300)
+    _TRANSITIONS = tr if isinstance(tr, dict) and "harness" not in tr else {}
     scale = 2.0 if tier == "thorough" else 1.0
     _POOL = build_pool(master_seed, scale)
-    table = cold_table(list(pool_ops(_POOL)), workers)
+    n_pairs = {"quick": 60, "thorough": 500}.get(tier, 12)
+    pairs = build_sweep_pairs(_POOL, master_seed, n_pairs)
+    sweep_ops = [o for pr in pairs for o in pr["warm"] + [pr["a"], pr["b"]]]
+    sweep_ops += [["ziu", o[1], o[2]] for o in sweep_ops if o[0] == "zi"]
+    table = cold_table(list(pool_ops(_POOL)) + sweep_ops, workers)
     # second phase: parse ops built from cold formatting answers
     parse_ops = []
     for cname, ops in _POOL["text"].items():
@@ -647,7 +866,9 @@ def prepare(tier, master_seed, workers):
         parse_ops += extra
     table.update(cold_table(parse_ops, workers))
     _TABLE = table
-    info = {"pool_ops": len(table), "cold_oracle_s": round(time.monotonic() - t0, 2), "cultures_in_icu": len(_ALL_CULTURES),
+    global _SWEEP_PAIRS
+    _SWEEP_PAIRS, _SWEEPS, sweep_info = build_sweeps(_POOL, master_seed, n_pairs, 160 if tier != "thorough" else 600, 30 if tier != "thorough" else 100, workers)  # fmt: skip
+    info = {"sweep": sweep_info, "pool_ops": len(table), "cold_oracle_s": round(time.monotonic() - t0, 2), "cultures_in_icu": len(_ALL_CULTURES),
             "cold_exceptions": sum(1 for v in table.values() if isinstance(v, list) and v[:1] == ["EXC"])}  # fmt: skip
     return info
 
@@ -667,6 +888,17 @@ def _strategy(rng, nthreads):
     if c < 0.9:
         return {"kind": "pct", "d": rng.choice([1, 2, 3]), "horizon": rng.choice([200, 2000, 20000, 100000])}
     return {"kind": "serial", "order": "random"}
+
+
+_SWEEP_PAIRS = []
+
+
+def gen_case(master_seed, k):
+    """Systematic single-pre-emption cases first, seeded random runs after."""
+    if k < len(_SWEEPS):
+        pi, i = _SWEEPS[k]
+        return _sweep_spec(_SWEEP_PAIRS[pi], i, derive_seed(master_seed, PROP, k))
+    return gen_run(derive_seed(master_seed, PROP, k))
 
 
 def gen_run(seed):
@@ -809,6 +1041,7 @@ def _body(env, ti, prog):
             if ident is not None:
                 env.idents.append((ident[0], ident[1], ti, oi))
             env.hist.append([ti, oi, inv, ret, op, ans, exc])
+            env.op_events[(ti, oi)] = t.ev
 
     return body
 
@@ -825,6 +1058,7 @@ def execute(spec):
     env = _Env()
     env.hist = []
     env.idents = []
+    env.op_events = {}
     _apply_knobs(spec, notes)
     _prewarm(spec)
     rng = random.Random(spec["seed"] ^ 0x5EED)
@@ -841,6 +1075,11 @@ def execute(spec):
               "same_function_overlap": sched.same_function_overlap}  # fmt: skip
     probes.update(_static_probes(spec))
     out["probes"] = probes
+    if spec.get("want_op_events"):
+        out["op_events"] = [[ti, oi, ev] for (ti, oi), ev in sorted(env.op_events.items())]
+    if spec["mode"] == "sweep":
+        probes["sweep_case"] = 1
+        probes["sweep_preemption_taken"] = int(any(sw[0] == 0 and sw[3] == 1 and sw[1] >= 0 for sw in sched.switches[1:]))
     if sched.aborted:
         info = sched.abort_info
         out["abort"] = info
@@ -938,6 +1177,8 @@ def nontrivial_key(spec, res):
     """Distinct + non-trivial: history runs by program content (>= 2 ops); concurrent runs by trace digest with >= 1
     voluntary context switch inside an inventory file."""
     sc = res.get("sched") or {}
+    if spec["mode"] == "sweep":
+        return "w" + sc.get("digest", "") if (res.get("probes") or {}).get("sweep_preemption_taken") else None
     if spec["mode"] == "hist":
         if len(spec["threads"][0]) < 2:
             return None
@@ -1006,7 +1247,7 @@ ASSUMPTIONS = [
     "identity is required only where the statement or the API documentation promises it (provider lookups per id, CalendarSystem per id, the tzdb provider, DateTimeZone.utc); elsewhere only answers are compared",
     "the private attribute _time_zone of the caching zone and the private format-info cache are read/replaced only to build the oracle table and to shrink the cache (knob); if they disappear those parts are skipped",
 ]
-TIERS = {"quick": {"runs": 2400, "budget": 170.0}, "thorough": {"runs": 400_000, "budget": 2400.0}}
+TIERS = {"quick": {"runs": 2400, "budget": 200.0}, "thorough": {"runs": 400_000, "budget": 2400.0}}
 
 
 def main(a, boot_info):
@@ -1014,7 +1255,7 @@ def main(a, boot_info):
 
     t = TIERS[a.tier]
     info = prepare(a.tier, a.seed, a.workers)
-    nruns = a.runs or t["runs"]
+    nruns = (a.runs or t["runs"]) + len(_SWEEPS)
     budget = a.budget or t["budget"]
     code, agg = runner.check_property(sys.modules[__name__], a.tier, a.seed, nruns, a.workers, budget, "exploration", RULE, ASSUMPTIONS,
                                       extra_cov={"bootstrap": boot_info, "oracle_pool": info}, wall_timeout=120.0)  # fmt: skip
